@@ -439,6 +439,11 @@ func c20Bubble(tp *core.Tape, e *core.Env) (hist []string) {
 			}
 		}
 	}
+	// whatever the last step released must have come to rest before the next action (as at the top of
+	// every step): otherwise it races with that action under real parallelism
+	sched.Sleep(0)
+	w.Settle()
+	check()
 	if caMissing {
 		_ = os.WriteFile(caFile, []byte(testCA), 0o644)
 		caMissing = false
